@@ -181,6 +181,35 @@ def e2e_segment(buf, enc, mode):
     return out
 
 
+def chunks_through_input(chunks, enc, paste_threshold="default", mode="curtsies"):
+    """A burst the OS hands over in several chunks: everything is queued before the first request, and every
+    os.read() of the REAL Input returns exactly one chunk (SOCK_DGRAM socketpair as in_stream: short reads with more
+    already waiting).  -> the keys that come back (PasteEvents flattened), 'RAISED <kind>' appended if send() raised"""
+    import socket
+    a, b = socket.socketpair(socket.AF_UNIX, socket.SOCK_DGRAM)
+    out = []
+    try:
+        for c in chunks:
+            a.send(bytes(c))
+        kw = {} if paste_threshold == "default" else {"paste_threshold": paste_threshold}
+        inp = cinput.Input(in_stream=b, sigint_event=False, keynames=MODES[mode], **kw)
+        with forced_encoding(enc):
+            for _ in range(sum(len(c) for c in chunks) + 5):
+                e = inp.send(0)
+                if e is None:
+                    break
+                if isinstance(e, ev.PasteEvent):
+                    out.extend(e.events)
+                else:
+                    out.append(e)
+    except Exception as x:  # noqa: BLE001
+        out.append("RAISED " + type(x).__name__)
+    finally:
+        a.close()
+        b.close()
+    return out
+
+
 def e2e_pieces(pieces, sends_between, enc, mode):
     """Bytes arriving in several pieces through consecutive Input.unget_bytes() calls, with `sends_between[i]` calls of
     send(0) after piece i (the last entry is ignored: the buffer is then drained).  Public interface only.
